@@ -27,13 +27,20 @@ META = {
     "stubs": ["the PhasePredictor table (an astropy QTable holding real Time columns) is replaced by a stand-in `self` whose columns are vectors "
               "of exact-real SymTime / concrete Quantities taken from a predictor parsed by the REAL from_polyco; the real methods "
               "intervals, _get_index_and_dt, __call__, f0, phasepol run unbound on it",
-              "Phase with object fields (as C07); numpy Polynomial evaluates on shadow reals through its own Horner code"],
+              "Phase with object fields (as C07); numpy Polynomial evaluates on shadow reals through its own Horner code",
+              "parsing units: the file object is a stream of token lists (line.split() returns the tokens; numeric tokens carry shadow "
+              "values, RPHASE is a symbolic decimal string so that partition('.') / '0.' + frac / np.int64('0' + int) run as written); "
+              "float/Time/np.array/np.int64 in pulsarbat.pulsar.predictor accept tokens; `cls` is a capture class that orders the "
+              "entries by tmid as PhasePredictor.__init__ does and builds the stand-in table"],
     "bounds": {"intervals": "1..3 entries with symbolic mid times (any order, overlapping, touching, disjoint), common symbolic span",
+               "parsing": "the real from_polyco on a token stream: layouts (entries x NCOEFF x span) 1x2x60, 1x4x60 quick; + 1x3x30, 1x7x1440, "
+                          "1x12x288, 2x2x60, 2x3x60, 2x5x288 thorough; TMID, RPHASE (integer <= 1e12 and six decimals), F0, every coefficient "
+                          "symbolic; then __call__ / f0 at a symbolic time against the tempo formula on the symbolic numbers",
                "evaluation": "three concrete polyco texts (the repository's timing.dat; a two-entry text with a gap; a generated text with "
                              "ncoeff not a multiple of 3, D exponents, signed coefficients), every entry, time symbolic over and beyond the spans"},
     "assumptions": ["exact real time and Horner arithmetic; coefficients are the doubles the real parser produced, compared with the exact "
                     "decimals of the text"],
-    "outside": ["arbitrary polyco TEXTS (parsing is exercised on the concrete texts only)", "time_at (SciPy root finder)",
+    "outside": ["polyco texts outside the layouts listed (more than two entries with symbolic numbers, blank lines, NCOEFF = 1)", "time_at (SciPy root finder)",
                 "float round-off of Horner evaluation and of Time differences", "array-valued times"],
 }
 
@@ -402,4 +409,6 @@ def units(tier):
             if tier == "quick" and which == "timing" and what == "phasepol":
                 continue          # (many entries x degree-11 composition: ~80 s, thorough tier)
             us.append(Evaluate(which, what))
+    from . import C08_parse
+    us += C08_parse.units(tier)
     return us
